@@ -73,3 +73,4 @@ def check(run, model, tier):
               'H3 h(chart, INIT) returns TRAN after chart.trans(x), or HANDLED, or H1',
               'H4 handlers cannot reach the processor\'s locals and do not call dispatch re-entrantly'):
         run.assume(a)
+    hsmrules.protocol_census(run, model)
